@@ -5,10 +5,12 @@ pub trait Suite {
 }
 
 pub mod codec;
+pub mod distro;
 
 pub fn make(name: &str) -> Option<Box<dyn Suite>> {
     match name {
         "codec" => Some(Box::new(codec::Codec::new())),
+        "distro" => Some(Box::new(distro::Distro::new())),
         _ => None,
     }
 }
